@@ -740,6 +740,68 @@ class Run:
                 fields.append(sub if kind == "cls" else {"kind": "listOf", "len_width": 1, "elem": sub})
         return {"kind": "nested", "fields": fields}
 
+    def golden(self, qn, obj) -> bytes | None:
+        """bytes of a shipped message computed from its attributes, the frozen per-class layout and the documented table"""
+        lay, vals = self.golden_values(qn, obj)
+        if lay is None:
+            return None
+        return doc_encode(lay, vals)[2:]
+
+    def golden_values(self, qn, obj):
+        frozen = {e["name"]: e for e in self.spec["layouts"]}
+        if qn not in frozen:
+            return None, None
+        ow = self.spec.get("old_wire", {})
+        fields, vals = [], []
+        if qn in ow:
+            conn = self.spec["connection_types"]
+
+            def bit(b):
+                if b == 0:
+                    return 0
+                if "attr" in b:
+                    return 1 if getattr(obj, b["attr"]) else 0
+                return conn[obj.connection_type][b["conn"]]
+            for w in ow[qn]:
+                d = self.doc[w["fmt"]]
+                fields.append(d)
+                if "attr" in w:
+                    vals.append(getattr(obj, w["attr"]))
+                elif "bits" in w:
+                    vals.append(tuple(bit(b) for b in w["bits"]))
+                elif "join" in w:
+                    vals.append(b"".join(getattr(obj, w["join"])))
+                elif "records" in w:
+                    vals.append(b"".join(b"".join(doc_atom(k, n, x) for (k, n), x in zip(w["record"], rec, strict=True))
+                                         for rec in getattr(obj, w["records"])))
+                elif "tuple" in w:
+                    vals.append(tuple(bytes.fromhex(t["const"]) if "const" in t else getattr(obj, t["attr"]) for t in w["tuple"]))
+                else:
+                    raise KeyError(f"old_wire entry {w}")
+            return {"kind": "nested", "fields": fields}, vals
+        e = frozen[qn]
+        if not e["names"]:
+            return None, None     # an old-style class without an old_wire entry: no golden layout known
+        names = iter(e["names"])
+        for kind, ref in e["refs"]:
+            if kind == "name":
+                d = self.doc[ref]
+                fields.append(d)
+                if d["kind"] == "bits":
+                    vals.append(tuple(1 if getattr(obj, next(names)) else 0 for _ in range(8)))
+                else:
+                    vals.append(getattr(obj, next(names)))
+            elif kind == "cls":
+                sl, sv = self.golden_values(ref, getattr(obj, next(names)))
+                fields.append(sl)
+                vals.append(sv)
+            else:
+                subs = [self.golden_values(ref, x) for x in getattr(obj, next(names))]
+                sl = subs[0][0] if subs else {"kind": "nested", "fields": []}
+                fields.append({"kind": "listOf", "len_width": 1, "elem": sl})
+                vals.append([v for _, v in subs])
+        return {"kind": "nested", "fields": fields}, vals
+
     def load_class(self, qn):
         import importlib
         mod, _, cn = qn.rpartition(".")
@@ -849,16 +911,19 @@ class Run:
             return
         atok = self.attr_tokens(p, obj, names)
         self.model(f"encode {p['name']} {atok}", "ok " + hx(packed), rep)
-        # bytes another implementation would produce from the frozen layout + documented table
-        docl = self.doc_class_layout(p)
-        if docl is not None:
-            try:
-                want = doc_encode(docl, self.pack_list_values(p, obj))[2:]
-                if want != packed:
-                    ctx.oracle_fail(f"{cn}:doc-bytes", f"{cn} is encoded as {packed.hex()[:160]} but the documented formats in the "
-                                    f"frozen field order give {want.hex()[:160]}", {**rep, "bytes": packed.hex()[:600]})
-            except (NotEncodable, ValueError, TypeError, AttributeError, OverflowError, struct.error) as e:
-                ctx.oracle_fail(f"{cn}:doc-bytes", f"{cn}: pack list does not fit the frozen layout ({type(e).__name__}: {e})", rep)
+        # golden bytes: what another implementation builds from the instance's ATTRIBUTES with the frozen per-class wire
+        # layout (spec: layouts / old_wire) and the documented formats — independent of to_pack_list and of the packers
+        try:
+            gold = self.golden(p["name"], obj)
+        except (NotEncodable, ValueError, TypeError, AttributeError, OverflowError, struct.error, KeyError) as e:
+            gold = None
+            ctx.oracle_fail(f"{cn}:doc-bytes", f"{cn}: attributes do not fit the frozen wire layout ({type(e).__name__}: {e})", rep)
+        if gold is not None:
+            ctx.count("golden:" + ("old_wire" if p["name"] in self.spec.get("old_wire", {}) else "frozen_layout"))
+            if gold != packed:
+                ctx.oracle_fail(f"{cn}:doc-bytes", f"{cn} is encoded as {packed.hex()[:160]} but its fields in the frozen wire layout "
+                                f"with the documented formats give {gold.hex()[:160]}", {**rep, "bytes": packed.hex()[:600],
+                                                                                           "documented": gold.hex()[:600]})
         if mode == "plain":
             pre, post = self.embed(rng, packed, ends_raw)
             data, off = pre + packed + post, len(pre)
@@ -1085,7 +1150,11 @@ class Run:
                 self.model(f"unpackl {ftok} {hx(data)} {off}", "err", rep)
                 continue
             gvals = self.extract(layout, got)
-            if not same(self.norm(layout, vals), self.norm(layout, gvals)):
+            try:
+                equal = same(self.norm(layout, vals), self.norm(layout, gvals))
+            except Exception:
+                equal = False
+            if not equal:
                 ctx.oracle_fail("adhoc:value", f"{ftok}: {short_repr(vals, 200)} decodes as {short_repr(gvals, 200)}", rep)
             if new != off + len(packed):
                 ctx.oracle_fail("adhoc:offset", f"{ftok}: decoder stopped at {new}, bytes end at {off + len(packed)}", rep)
@@ -1100,6 +1169,194 @@ class Run:
                 gtok = f"untokenizable:{type(e).__name__}"
             self.model(f"unpackl {ftok} {hx(data)} {off}", f"ok {gtok} {new}", rep)
             ctx.case((S_ADHOC, ftok, vtok, off), True)
+
+    # --- section: dataclass-defined payloads, inheritance chains and instantiation histories ---------------------------------
+    DC_FMT_NAMES = ["H", "I", "Q", "B", "l", "q", "f", "d", "?", "c", "20s", "32s", "varlenH", "varlenI", "varlenBx2",
+                    "varlenHutf8", "varlenH-list", "ip_address", "address", "ipv4", "arrayH-q"]
+
+    def dc_field(self, rng, leafs, i):
+        """-> (field name, annotation, documented layout, kind) for one random dataclass field"""
+        from ipv8.messaging.payload_dataclass import type_from_format
+        tm = self.spec["dataclass_type_map"]
+        r = rng.random()
+        py = {"bool": bool, "int": int, "float": float, "bytes": bytes, "str": str,
+              "list[bool]": list[bool], "list[int]": list[int], "list[float]": list[float]}
+        if r < 0.55:
+            key = rng.choice(sorted(tm))
+            return (f"f{i}", py[key], self.doc[tm[key]], "atom:" + key)
+        if r < 0.75:
+            name = rng.choice([n for n in self.DC_FMT_NAMES if n in self.doc and n in self.info["registry"]])
+            return (f"f{i}", type_from_format(name), self.doc[name], "fmt:" + name)
+        if not leafs:
+            return (f"f{i}", int, self.doc[tm["int"]], "atom:int")
+        leaf = rng.choice(leafs)
+        if r < 0.88:
+            return (f"f{i}", leaf["cls"], leaf["layout"], "nested")
+        return (f"f{i}", list[leaf["cls"]], {"kind": "listOf", "len_width": 1, "elem": leaf["layout"]}, "nestedlist")
+
+    def dc_make(self, name, fields, base, msg_id):
+        import dataclasses
+        ns = {} if msg_id is None else {"msg_id": msg_id}
+        return dataclasses.make_dataclass(name, [(f[0], f[1]) for f in fields], bases=(base,), namespace=ns, module=__name__)
+
+    def dc_value(self, rng, f):
+        """-> (constructor argument, value in layout shape)"""
+        kind = f[3]
+        if kind == "nested" or kind == "nestedlist":
+            leaf = f[4]
+            n = 1 if kind == "nested" else rng.choice([0, 1, 2, 3])
+            subs = []
+            for _ in range(n):
+                vals = [gen_value(rng, lf[2], self.ctx, 1) for lf in leaf["fields"]]
+                subs.append((leaf["cls"](*vals), vals))
+            if kind == "nested":
+                return subs[0]
+            return [o for o, _ in subs], [v for _, v in subs]
+        v = gen_value(rng, f[2], self.ctx, 1)
+        return v, v
+
+    def dc_extract(self, fields, obj):
+        out = []
+        for f in fields:
+            v = getattr(obj, f[0], "<missing>")
+            if f[3] == "nested":
+                out.append([getattr(v, lf[0], "<missing>") for lf in f[4]["fields"]])
+            elif f[3] == "nestedlist":
+                out.append([[getattr(x, lf[0], "<missing>") for lf in f[4]["fields"]] for x in v] if isinstance(v, list) else v)
+            else:
+                out.append(v)
+        return out
+
+    def dataclass_histories(self, n: int):
+        """random hierarchies of dataclass payloads (base, derived, derived-of-derived / sibling) used in random orders:
+        whatever was instantiated before, every class must encode ALL its (inherited + own) fields in the documented formats
+        and decode to an instance of itself"""
+        from ipv8.messaging.payload_dataclass import DataClassPayload
+        ctx = self.ctx
+        for idx in range(1, n + 1):
+            if not self.want("dataclass", idx):
+                continue
+            rng = self.rng_for("dataclass", idx)
+            # leaf payloads usable as nested members
+            leafs = []
+            for j in range(2):
+                lf = [self.dc_field(rng, [], 0) for _ in range(rng.choice([1, 2]))]
+                lf = [(f"l{k}", f[1], f[2], f[3]) for k, f in enumerate(lf) if not f[3].startswith("nested")] or \
+                     [("l0", int, self.doc["q"], "atom:int")]
+                cls = self.dc_make(f"Leaf{idx}_{j}", lf, DataClassPayload, None)
+                leafs.append({"cls": cls, "fields": lf,
+                              "layout": {"kind": "nested", "fields": [f[2] for f in lf]}})
+            # the hierarchy: each class = (name, all fields incl. inherited, class object, role)
+            with_id = rng.random() < 0.5
+            counter = [0]
+
+            def new_fields(k):
+                out = []
+                for _ in range(k):
+                    counter[0] += 1
+                    f = self.dc_field(rng, leafs, counter[0])
+                    if f[3] in ("nested", "nestedlist"):
+                        leaf = next(x for x in leafs if x["cls"] is f[1] or list[x["cls"]] == f[1])
+                        f = (*f, leaf)
+                    out.append(f)
+                return out
+            bf = new_fields(rng.choice([1, 2, 3]))
+            base = self.dc_make(f"DcBase{idx}", bf, DataClassPayload[rng.randrange(1, 200)] if with_id else DataClassPayload, None)
+            classes = [("base", bf, base)]
+            shape = rng.choice(["chain2", "chain3", "siblings", "chain2"])
+            cf = bf + new_fields(rng.choice([1, 2]))
+            child = self.dc_make(f"DcChild{idx}", cf[len(bf):], base, rng.randrange(1, 200) if with_id else None)
+            classes.append(("derived", cf, child))
+            if shape == "chain3":
+                gf = cf + new_fields(rng.choice([1, 2]))
+                classes.append(("derived2", gf, self.dc_make(f"DcGrand{idx}", gf[len(cf):], child,
+                                                            rng.randrange(1, 200) if with_id else None)))
+            elif shape == "siblings":
+                sf = bf + new_fields(rng.choice([1, 2]))
+                classes.append(("sibling", sf, self.dc_make(f"DcSib{idx}", sf[len(bf):], base,
+                                                            rng.randrange(1, 200) if with_id else None)))
+            # the history: every class at least once, random order, some repeated
+            order = list(range(len(classes)))
+            rng.shuffle(order)
+            order += [rng.randrange(len(classes)) for _ in range(rng.choice([1, 2, 3]))]
+            first = classes[order[0]][0]
+            ctx.count("dc_shape:" + shape)
+            ctx.count("dc_first_instantiated:" + first)
+            seen = []
+            for step, ci in enumerate(order):
+                role, fields, cls = classes[ci]
+                hist = ">".join(seen + [role])
+                seen.append(role)
+                layout = {"kind": "nested", "fields": [f[2] for f in fields]}
+                pairs = [self.dc_value(rng, f) for f in fields]
+                args, vals = [a for a, _ in pairs], [v for _, v in pairs]
+                rep = {"section": "dataclass", "index": idx, "step": step, "history": hist, "role": role,
+                       "fields": [(f[0], f[3]) for f in fields], "values": short_repr(vals, 300)}
+                ctx.count("dc_field_kinds:" + ",".join(sorted({f[3].split(":")[0] for f in fields})))
+                if role != "base" and "base" in seen[:-1] and role not in seen[:-1]:
+                    ctx.count("dc_history:derived-first-used-after-base")
+                elif role != "base" and role not in seen[:-1]:
+                    ctx.count("dc_history:derived-first-used-before-base")
+                site = f"dataclass.{role}"
+                try:
+                    obj = cls(*args)
+                    packed = self.ser.pack_serializable(obj)
+                except Exception as e:
+                    ctx.oracle_fail(f"{site}:pack-raises", f"history {hist}: constructing/packing a {role} dataclass payload raises "
+                                    f"{type(e).__name__}: {e}", rep)
+                    continue
+                ftok, vtok = fmt_token(layout), token(layout, vals)
+                self.model(f"packl {ftok} {vtok}", "ok " + hx(packed), rep)
+                try:
+                    gold = doc_encode(layout, vals)[2:]
+                except (NotEncodable, OverflowError, struct.error, ValueError, TypeError) as e:
+                    gold = None
+                    ctx.oracle_fail(f"{site}:doc-bytes", f"history {hist}: values do not fit the documented formats ({e})", rep)
+                if gold is not None and gold != packed:
+                    ctx.oracle_fail(f"{site}:doc-bytes", f"history {hist}: a {role} dataclass payload with fields "
+                                    f"{[f[3] for f in fields]} is encoded as {packed.hex()[:120]}, its annotated fields in the "
+                                    f"documented formats give {gold.hex()[:120]}", {**rep, "bytes": packed.hex()[:400]})
+                pre, post = self.embed(rng, gold if gold is not None else packed, False)
+                body = gold if gold is not None else packed
+                data, off = pre + body + post, len(pre)
+                rep = {**rep, "offset": off, "data": data.hex()[:600]}
+                try:
+                    got, new = self.ser.unpack_serializable(cls, data, off)
+                except Exception as e:
+                    ctx.oracle_fail(f"{site}:unpack-raises", f"history {hist}: decoding a {role} dataclass payload at {off} raises "
+                                    f"{type(e).__name__}: {e}", rep)
+                    self.model(f"unpackl {ftok} {hx(data)} {off}", "err", rep)
+                    continue
+                if type(got) is not cls:
+                    ctx.oracle_fail(f"{site}:type", f"history {hist}: decoded object is a {type(got).__name__}, expected "
+                                    f"{cls.__name__}", rep)
+                gvals = self.dc_extract(fields, got)
+                try:
+                    equal = same(self.norm(layout, vals), self.norm(layout, gvals))
+                except Exception:      # decoded object lacks fields / has fields of another shape
+                    equal = False
+                if not equal:
+                    ctx.oracle_fail(f"{site}:value", f"history {hist}: fields {short_repr(vals, 160)} decode as "
+                                    f"{short_repr(gvals, 160)}", rep)
+                if new != off + len(body):
+                    ctx.oracle_fail(f"{site}:offset", f"history {hist}: decoder stopped at {new}, message ends at {off + len(body)}", rep)
+                try:
+                    if self.ser.pack_serializable(got) != body:
+                        ctx.oracle_fail(f"{site}:reencode", f"history {hist}: re-encoding the decoded message differs", rep)
+                except Exception as e:
+                    ctx.oracle_fail(f"{site}:reencode", f"history {hist}: re-encoding raises {type(e).__name__}", rep)
+                try:
+                    gtok = token(layout, self.norm(layout, gvals))
+                except Exception as e:
+                    gtok = f"untokenizable:{type(e).__name__}"
+                self.model(f"unpackl {ftok} {hx(data)} {off}", f"ok {gtok} {new}", rep)
+                ctx.case(("dataclass", idx, step, vtok, off), True)
+            # leave no attributes behind on the harness module
+            import sys as _sys
+            for _, _, c in classes:
+                _sys.modules[__name__].__dict__.pop(c.__name__, None)
+            for lf in leafs:
+                _sys.modules[__name__].__dict__.pop(lf["cls"].__name__, None)
 
     # --- section: truncated / inflated encodings (decode side of the model only; the property itself is C03's) -----------
     def truncated(self, n: int):
@@ -1241,6 +1498,9 @@ class Run:
                 cn = name.rpartition(".")[2]
                 ctx.oracle_fail(f"{cn}:msg_id", f"{cn}.msg_id is {p['msg_id']}, the pinned version uses {mid}",
                                 {"section": S_SPEC, "class": name, "live": p["msg_id"], "frozen": mid})
+        for p in live.values():
+            if p["kind"] == "old" and p["name"] not in self.spec.get("old_wire", {}):
+                ctx.count("old_style_class_without_golden_layout:" + p["name"].rpartition(".")[2])
         reg = self.info["registry"]
         for name, d in self.doc.items():
             if name in reg and reg[name] != d:
@@ -1395,10 +1655,10 @@ def live_info(ctx: Ctx):
 def SCALE(ctx):
     return {"packers": ctx.scale(120, 800), "classes": ctx.scale(80, 600), "adhoc": ctx.scale(1500, 15000),
             "cells": ctx.scale(200, 2000), "ulists": ctx.scale(400, 4000), "trunc": ctx.scale(5000, 50000),
-            "sweep": ctx.scale(12, 64)}
+            "sweep": ctx.scale(12, 64), "dataclass": ctx.scale(300, 3000)}
 
 
-SEARCH_SCALE = {"packers": 300, "classes": 200, "adhoc": 3000, "cells": 300, "ulists": 500, "trunc": 0, "sweep": 8}
+SEARCH_SCALE = {"packers": 300, "classes": 200, "adhoc": 3000, "cells": 300, "ulists": 500, "trunc": 0, "sweep": 8, "dataclass": 600}
 
 
 def sections(r: Run, ctx: Ctx, scale):
@@ -1411,6 +1671,7 @@ def sections(r: Run, ctx: Ctx, scale):
     r.illegal()
     r.classes(scale["classes"])
     r.adhoc(scale["adhoc"])
+    r.dataclass_histories(scale["dataclass"])
     r.cells(scale["cells"])
     r.ulists(scale["ulists"])
     r.truncated(scale["trunc"])
@@ -1468,6 +1729,8 @@ def replay(ctx: Ctx, info, spec):
             r.flags_exhaustive()
         elif section == "oldx":
             r.old_exhaustive()
+        elif section == "dataclass":
+            r.dataclass_histories(scale["dataclass"])
         if ctx.failures:
             break
     ctx.searching = False
